@@ -33,7 +33,7 @@ func writeManifest() error {
 		}
 	}
 	var checks []map[string]any
-	var na []map[string]any
+	na := []map[string]any{}
 	for _, id := range ids {
 		p := props.Get(id)
 		if p == nil {
